@@ -574,6 +574,20 @@ func (lb *LoadBalancer) IsBackendHealthy(backend *Backend) bool {
 	return isHealthy
 }
 
+// healthyNow reports whether the backend may be chosen for a request: it is
+// not marked unhealthy, or its unhealthy period has elapsed. (The flag itself
+// is reset lazily by LoadBalancer.IsBackendHealthy; strategies must not rely on
+// the bare flag, or a backend whose period has elapsed is never looked at
+// again.) A backend marked unhealthy without a deadline stays unhealthy.
+func (backend *Backend) healthyNow() bool {
+	backend.Mutex.RLock()
+	defer backend.Mutex.RUnlock()
+	if backend.IsHealthy {
+		return true
+	}
+	return !backend.UnhealthyUntil.IsZero() && time.Now().After(backend.UnhealthyUntil)
+}
+
 // IncrementConnections increments the active connection count for a backend
 func (backend *Backend) IncrementConnections() {
 	atomic.AddInt32(&backend.ActiveConnections, 1)
